@@ -391,6 +391,12 @@ Step ==
                                THEN {V("C07", l, "writing a value panicked instead of returning an error: " \o e.site)}
                           ELSE IF o.op = "drop" THEN {}
                           ELSE {V("C03", l, "writer call " \o o.op \o " panicked: " \o e.site)})
+                         \* refusals are InvalidData/Other; any other error of a writer call comes from the
+                         \* connection, which may only fail when the transport did
+                         \cup (IF e.res = "err" /\ ~m.fault /\ "kind" \in DOMAIN e /\ e.kind \notin {"InvalidData", "Other"}
+                               THEN {V("C03", l, "writer call " \o o.op \o " failed with a connection-level error (" \o e.kind \o ") although the transport reported none")}
+                                    \cup (IF m.enc THEN {V("C18", l, "over TLS a writer call failed with " \o e.kind \o " although the transport reported no error: not served as over plaintext")} ELSE {})
+                               ELSE {})
        [] e.e = "cb_ret" ->
             IF m.cur = 0 THEN UNCHANGED <<m, viol>>
             ELSE LET q == m.q[m.cur]
@@ -505,9 +511,15 @@ Step ==
                 vhs == IF res = "err" /\ mm.dead = "" /\ ~mm.fault /\ ~mm.lost /\ ~mm.free /\ FirstNew(mm.q) # 0
                           /\ mm.q[FirstNew(mm.q)].cls.kind = "hs"
                        THEN {V("C11", l, "a well-formed handshake response was refused: after_authentication was never called")} ELSE {}
+                \* the server ended the connection on its own in the middle of a well-formed command stream:
+                \* whatever the client sent or was about to send never reaches the shim under this read schedule (C01)
+                vundeliv == IF res \in {"panic", "err"} /\ ~mm.fault /\ mm.dead = "" /\ ~mm.lost /\ ~mm.free /\ ~mm.blocked
+                               /\ ~mm.eof /\ ~mm.quit /\ ~mm.wpanic /\ mm.panics = << >> /\ ~(mm.ctls /\ ~mm.enc)
+                            THEN {V("C01", l, "the connection ended (" \o res \o ") in the middle of a well-formed command stream: commands the client sent never reach the shim")}
+                            ELSE {}
                 vblock == IF mm.blocked /\ ~mm.lost THEN {V("C12", l, "lock-step client blocked: the server waited for input while the client was waiting for a reply")} ELSE {}
             IN /\ m' = [mm EXCEPT !.done = TRUE]
-               /\ viol' = r0.v \cup vres \cup vsync \cup vblock \cup vpanic \cup vtls \cup vmissed \cup vrefused \cup vhs
+               /\ viol' = r0.v \cup vres \cup vsync \cup vblock \cup vpanic \cup vtls \cup vmissed \cup vrefused \cup vhs \cup vundeliv
        [] OTHER -> UNCHANGED <<m, viol>>
 
 Spec == Init /\ [][Step]_vars
